@@ -150,6 +150,7 @@ def run(ctx, rep):
     selectors_agree(ctx, rep)
     g1justify(ctx, rep)
     cursor(ctx, rep)
+    wiresig(ctx, rep)
 
 
 def selectors_agree(ctx, rep):
@@ -220,3 +221,21 @@ def cursor(ctx, rep):
     rep.floor("CURSOR: of which not plain induction variables", n_nt, 20)
     rep.control("CURSOR", "c10_cursor_bad", ctl.get("c10_cursor_bad") is False, "stalling cursor must be reported")
     rep.control("CURSOR", "c10_cursor_ok (negative)", ctl.get("c10_cursor_ok") is True, "must be discharged")
+
+
+WIRESIG_TEXT = ("WIRESIG: for every (writer, reader) pair of rules/wiresig.json the set of type-directed token "
+                "sequences along the success paths of the writer (FIX<n> / BYTES / VARINT<bits><sign> / BITS<n> / "
+                "bit-region and coder framing / calls of other paired records; helpers inlined, loops taken zero "
+                "or one time) equals that of the reader on its current-version path (mode 'paths'), or the sets of "
+                "token kinds agree up to the waivers listed with reasons (mode 'kinds', where one side recurses / "
+                "buffers and the other does not)")
+
+
+def wiresig(ctx, rep, ids=None, floor=None):
+    from ..wiresig import run_wiresig
+    from ..core import load_table
+    rep.rules_text.append(WIRESIG_TEXT)
+    n = run_wiresig(ctx, rep, "WIRESIG", ids)
+    tab = load_table("wiresig.json")
+    want = len([p for p in tab["pairs"] if p.get("writer") and (ids is None or p["id"] in ids)])
+    rep.floor("WIRESIG pairs compared", n, want if floor is None else floor)
